@@ -4,10 +4,33 @@ use crate::configs;
 use hvcore::drive::Ctx;
 use hvcore::fam::{self, HistParams};
 
+pub const REGISTRY_KINDS: [&str; 8] = ["double-drop", "corrupt-drop", "corrupt-clone", "clone-of-dead", "dup", "dead-visible", "leak", "value-accounting"];
+
 pub fn kinds_for(prop: &str) -> Vec<&'static str> {
-    match prop {
-        "C01" => vec!["model", "garbage", "harness"],
-        _ => vec!["harness"],
+    let mut k: Vec<&'static str> = match prop {
+        "C01" => vec!["model", "garbage"],
+        "C02" => vec!["model", "garbage", "iter"],
+        "C03" => REGISTRY_KINDS.to_vec(),
+        "C08" => vec!["model", "garbage", "clone-count", "shared-storage", "handle", "meta"],
+        "C09" => vec!["model", "clone-count", "lazy", "dup", "double-drop", "handle"],
+        "C10" => vec!["capacity", "len>cap", "model", "garbage"],
+        "C14" => vec!["iter", "model"],
+        _ => vec![],
+    };
+    k.push("harness");
+    k
+}
+
+fn hist(thorough: bool, elems: bool, ranges: bool, capacity: bool, clones: bool) -> HistParams {
+    HistParams {
+        histories: if thorough { 400 } else { 12 },
+        ops: if thorough { 2000 } else { 300 },
+        max_len: if thorough { 5000 } else { 200 },
+        ranges,
+        elems,
+        capacity,
+        clones,
+        invalid_pct: 6,
     }
 }
 
@@ -17,21 +40,39 @@ pub fn run(ctx: &mut Ctx) {
         cfgs.retain(|c| c.core);
     }
     let thorough = ctx.thorough();
+    let l = if thorough { 7 } else { 4 };
     match ctx.prop.as_str() {
         "C01" => {
-            let l = if thorough { 7 } else { 4 };
-            fam::exhaustive(ctx, "elem", &cfgs, l, true, &fam::elem_ops);
-            let p = HistParams {
-                histories: if thorough { 400 } else { 12 },
-                ops: if thorough { 2000 } else { 300 },
-                max_len: if thorough { 5000 } else { 200 },
-                ranges: false,
-                elems: true,
-                capacity: true,
-                clones: false,
-                invalid_pct: 6,
-            };
-            fam::histories(ctx, "elem-hist", &cfgs, &p);
+            fam::exhaustive(ctx, "elem", &cfgs, l, true, &fam::elem_seqs);
+            fam::histories(ctx, "elem-hist", &cfgs, &hist(thorough, true, false, true, false));
+        }
+        "C02" => {
+            fam::exhaustive(ctx, "range", &cfgs, l, true, &fam::range_ops);
+            fam::histories(ctx, "range-hist", &cfgs, &hist(thorough, false, true, false, false));
+        }
+        "C03" => {
+            fam::exhaustive(ctx, "elem", &cfgs, l.min(5), false, &fam::elem_seqs);
+            fam::exhaustive(ctx, "range", &cfgs, l.min(5) - 1, false, &fam::range_ops);
+            fam::exhaustive(ctx, "clone", &cfgs, 3, false, &fam::clone_ops);
+            fam::exhaustive(ctx, "lazy", &cfgs, 2, false, &fam::lazy_ops);
+            fam::histories(ctx, "mixed-hist", &cfgs, &hist(thorough, true, true, true, true));
+        }
+        "C08" => {
+            cfgs.retain(|c| c.cloneable);
+            fam::exhaustive(ctx, "clone", &cfgs, l, false, &fam::clone_ops);
+        }
+        "C09" => {
+            cfgs.retain(|c| c.cloneable && c.elem.needs_drop);
+            fam::exhaustive(ctx, "lazy", &cfgs, l.min(5), false, &fam::lazy_ops);
+        }
+        "C10" => {
+            cfgs.retain(|c| c.resizable);
+            fam::exhaustive(ctx, "capacity", &cfgs, l, false, &fam::cap_ops);
+            fam::histories(ctx, "capacity-hist", &cfgs, &hist(thorough, true, true, true, false));
+        }
+        "C14" => {
+            fam::exhaustive(ctx, "iter", &cfgs, l, false, &fam::iter_ops);
+            fam::exhaustive(ctx, "range", &cfgs, l, false, &fam::range_ops);
         }
         other => {
             eprintln!("unknown property {other}");
